@@ -24,7 +24,7 @@ class BddGen:
         self.rng = rng
         self.c = Ctx(nvars)
         self.n = nvars
-        self.lines = ["cfg " + cfg, "nvars %d" % nvars]
+        self.lines = ["cfg " + cfg, "nvars %d" % min(nvars, 6)]
         self.tt = []          # truth table of each register (None = unknown / skipped)
         self.live = []        # registers believed live
         self.weights = dict(DEFAULT_WEIGHTS if weights is None else weights)
@@ -42,6 +42,35 @@ class BddGen:
         self.reg("const 0", 0)
         for v in range(1, nvars + 1):
             self.reg("var %d" % v, self.c.var(v))
+
+    def wide_preamble(self, extra):
+        """variables beyond nvars (meaning unknown to the generator, live all the same), huge variable numbers, and a few
+        cubes / clauses over them so that later operations work on diagrams with many levels"""
+        r = self.rng
+        hi = self.n + extra
+        for v in list(range(self.n + 1, hi + 1)) + [65535 + r.randrange(3), 2147483600 + r.randrange(40), 2147483647]:
+            k = self.reg("var %d" % v, None, False)
+            self.live.append(k)
+        for j in range(8):
+            k = r.randrange(2, min(hi, 14) + 1) if j < 5 else r.randrange(max(2, hi - 8), hi + 1)      # the last ones are long
+            vs = r.sample(range(1, hi + 1), k)
+            lits = [v if r.random() < 0.6 else -v for v in vs]
+            kind = r.choice(["cube", "clause"])
+            kk = self.reg("%s %d %s" % (kind, k, " ".join(map(str, lits))), None, False)
+            self.live.append(kk)
+            self.complex.append(kk)
+            if j >= 5:
+                # queries on diagrams with many levels (deep recursions, long literal lists)
+                a = self.a(kk, r.random() < 0.5)
+                self.q("onesat %s" % a)
+                self.q("onesat %s" % self.a(kk, True))
+                self.q("itec %s %s 1" % (a, self.a(*self.pick())))
+                self.q("itec %s %s %s" % (a, self.a(r.choice(self.live[-12:]), r.random() < 0.5), self.a(r.choice(self.live[-12:]), r.random() < 0.5)))
+                self.q("implies %s %s" % (a, self.a(r.choice(self.live[-12:]), False)))
+                self.q("size %s" % a)
+                if kind == "cube" or k <= 12:
+                    self.q("paths %s" % a)
+        self.classes["family:wide"] += 1
 
     # ---- bookkeeping
     REPLAYABLE = ("ite", "and", "or", "xor", "eq", "imply", "constrain", "restrict", "compose", "subst", "substm", "cofcube", "andmany", "ormany", "expr")
@@ -384,9 +413,11 @@ class BddGen:
         vs = [self.val(*x) if x[0] < len(self.tt) else None for x in (f, g)]
         ok = None not in vs
         tt = None
-        if ok:
+        if ok and self.n <= 6:
             tt = self.c.constrain(*vs) if which == "constrain" else self.c.restrict(*vs)
-        self.reg("%s %s %s" % (which, self.a(*f), self.a(*g)), tt, ok)
+        k = self.reg("%s %s %s" % (which, self.a(*f), self.a(*g)), tt, ok and tt is not None)
+        if ok and tt is None:
+            self.live.append(k)
 
     def op_lowhigh(self):
         f = self.pick_nonconst()
@@ -572,8 +603,10 @@ class BddGen:
                 self.classes[other + ":same-args-as-sibling"] += 1
                 vs = [self.val(*x) if x[0] < len(self.tt) else None for x in (f, g)]
                 ok = None not in vs
-                tt = (self.c.constrain(*vs) if other == "constrain" else self.c.restrict(*vs)) if ok else None
-                self.reg("%s %s %s" % (other, self.a(*f), self.a(*g)), tt, ok)
+                tt = (self.c.constrain(*vs) if other == "constrain" else self.c.restrict(*vs)) if (ok and self.n <= 6) else None
+                k = self.reg("%s %s %s" % (other, self.a(*f), self.a(*g)), tt, ok and tt is not None)
+                if ok and tt is None:
+                    self.live.append(k)
         elif kind == "lowhigh":
             self.op_lowhigh()
         elif kind == "topcof":
